@@ -81,7 +81,8 @@ Next == S.clock < MaxClock /\ \E c \in Calls(S) : Step(c)
 Spec == Init /\ [][Next]_vars
 
 \* ------------------------------------------------------------ properties
-Sane == StateOK(S)
+MCStoreOf(class) == CASE class = "GLACIER" -> "cold" [] class = "STANDARD_IA" -> "warm" [] OTHER -> "default"
+Sane == StateOK(S) /\ PlacedByClass(S, MCStoreOf)
 
 \* C03 (validation errors): a call that returns an error changes nothing.
 FailedOpIsStutter == [][res'.err # "" => S' = S]_vars
